@@ -182,7 +182,11 @@ def run_check(modname, tier, seed, workers=None, only_units=None):
             agg.states += r.states
             agg.outcomes.update(r.outcomes)
             agg.violations.extend(r.violations)
-            agg.counters.update(r.counters)
+            for ck, cv in r.counters.items():
+                if ck.startswith("max_"):
+                    agg.counters[ck] = max(agg.counters[ck], cv)
+                else:
+                    agg.counters[ck] += cv
             agg.capped = agg.capped or r.capped
             if r.nontrivial_keys is not None:
                 use_keys = True
